@@ -1,6 +1,7 @@
 #!/bin/sh
 # Mutation audit of the machinery itself (not one of the registered checks).
 #   selftest/audit.sh            every seeded change must be reported (exit 1) by the first check named in its meta.json
+#   selftest/audit.sh only 'S10-*'   the same for the seeded changes matching the glob
 #   selftest/audit.sh neutral    every property-preserving patch in selftest/neutral must leave all twenty checks at exit 0
 # Each patch is applied in a scratch git worktree of /repo outside /repo and /verif, which is removed afterwards.
 cd "$(dirname "$0")/.." || exit 2
@@ -18,7 +19,8 @@ if [ "$1" = "neutral" ]; then
     echo "$p done"
   done
 else
-  for d in seeded/*/; do
+  pat='*'; [ "$1" = "only" ] && pat="$2"
+  for d in seeded/$pat/; do
     id=$(basename $d)
     chk=$(python3 -c "import json;print(json.load(open('$d/meta.json'))['checks_that_report_it_quick_tier'][0])")
     W=$(mktemp -d /tmp/audit.XXXXXX); rmdir $W
